@@ -109,6 +109,18 @@ def run(ck):
                     if kind != "multiclass":
                         k2 = rng.choice(["then", "else", "foreach", "let", "defset"])
                         seqs.append(("nest", wrap(k2, wrap(kind, inner, braces), rng.random() < 0.5, other=gdoc.sentence(rng, "If", budget=3) if rng.random() < 0.3 else None)))
+    # a statement cut short in front of the closing brace of every container (`foreach .. in { let A = 1 in }`): the end of a block
+    # inside every construct, where the enclosing rule takes the brace as its own and somebody has to report what is missing
+    for _ in range(1 if quick else 6):
+        for nt in stmt_nts:
+            full = gdoc.sentence(rng, nt, budget=rng.choice([2, 3, 4]))
+            for cutat in range(1, len(full)):
+                pre = full[:cutat]
+                for kind in ["then", "else", "foreach", "let", "defset", "multiclass"]:
+                    seqs.append(("cut-in-block", wrap(kind, pre, True)))
+                    seqs.append(("cut-in-block", wrap(kind, ["Def", "Id", "Semi"] + pre, True)))
+                k2 = rng.choice(["then", "else", "foreach", "let", "defset"])
+                seqs.append(("cut-in-block", wrap(k2, wrap(rng.choice(["foreach", "let", "then"]), pre, True), True)))
     # value contexts: short `defvar a = <value>;` sentences covering the value rules (suffixes, slices, ranges, dags, lists, bits,
     # class values, operators), and EVERY insertion of a value-level token or short phrase (`# x`, `.f`, `{0}`, `[0]`, `<int>`,
     # `:$a`) at EVERY position: what may follow what inside a value
